@@ -923,6 +923,10 @@ class Executor(Exec):
     def call_module(self, mod, name, args, kw):
         if mod == "math":
             if name == "dist":
+                pts = [tuple(a) for a in args] if all(isinstance(a, (tuple, list)) for a in args) else None
+                if pts and all(isinstance(c, (int, float)) for p in pts for c in p):
+                    import math
+                    return math.dist(*pts)  # concrete points: exact Python semantics
                 raise OutOfSubset("math.dist (use squared distance contract)")
             if name in ("floor", "ceil"):
                 v = args[0]
